@@ -42,6 +42,19 @@ def ctrfs_ok(total_len, limit):
     return total_len == 0 or abs(q - round(q)) > Fraction(1, 10 ** 6)
 
 
+def spec_fs(inner=None):
+    """`ctrfs` / `covfs`: the specification speaks about the result files only (counts table, vectors file), so the
+    listing of the directory is reduced to them before it is compared with the specification line"""
+    def f(case, out):
+        if case.startswith(("ctrfs ", "covfs ")):
+            if "|" not in out or out.startswith(("PANIC", "CRASH", "NOT-RUN", "MODEL")): return out
+            items = out.split("|")[-1].split(";")
+            keep = ("counts=",) if case.startswith("ctrfs ") else ("counts=", "vectors=")
+            return ";".join(x for x in items if x.startswith(keep))
+        return inner(case, out) if inner else out
+    return f
+
+
 def gen_ctrfs(r, n):
     """the counter's files: one worker, chunk passes by the budget rule, with and without the files of a bigger earlier run"""
     cases = []
@@ -1139,7 +1152,7 @@ PROPS = {
                 rule="seeded records (homopolymers, low-complexity repeats, palindromic h++rc(h), all-ambiguous, mixed with planted ambiguous bytes; boundary lengths 0,1,k-1,k,k+1,2k) for k in 1..=8, raw and normalised, each also as its reverse complement, lower case, U for T and both; vector entries compared as binary64 bit patterns with the Flocq model; non-trivial = some entry non-zero; relations on the implementation: the four respellings give the identical row",
                 nontrivial=lambda c, o: bool(o) and not o.startswith(("PANIC", "CRASH", "NOT-RUN")) and any(x != "0" for x in o.split(",")),
                 assumptions=["bytes 0x00-0x03 are never generated", "counts stay below 2^53 (f64 increments exact)"]),
-    "C08": dict(gen=gen_C08, needs=["harness"],
+    "C08": dict(gen=gen_C08, needs=["harness"], to_spec=spec_fs(),
                 rule="record level: seeded records x k in {1,2,3,5,7,11,15,21,31} x bin sizes {1,2,5,16,1000, 49,98,103,107,161,187,196,197 (reciprocal not exact in binary64), random 1..250} x bin counts {1,2,5,16,40} x raw/normalised, count tables over k-mers that occur in the record with boundary multiplicities q*s-1, q*s, absent k-mers, 10^4*s and u32::MAX; non-trivial = some entry non-zero",
                 nontrivial=lambda c, o: bool(o) and not o.startswith(("PANIC", "CRASH", "NOT-RUN")) and any(x != "0" for x in o.split(",")),
                 assumptions=["(count as f64 / bin_size as f64).floor() equals integer division for count < 2^32, bin_size < 2^32 (modelled as N division; boundary multiplicities generated on purpose)"]),
@@ -1159,7 +1172,7 @@ PROPS = {
                 nontrivial=lambda c, o: "|" in o and o.split("|")[1] != "",
                 assumptions=["the DEFLATE codec itself is not modelled (only the member structure)", "bio 2.0.3's parsers are third-party code, modelled from their source and validated here",
                              "non-UTF-8 input is outside 'well-formed' and never generated"]),
-    "C07": dict(gen=gen_C07, needs=["harness"], sample_limit={"quick": 32, "thorough": 96}, sample_maxlen=700,
+    "C07": dict(gen=gen_C07, needs=["harness"], to_spec=spec_fs(), sample_limit={"quick": 32, "thorough": 96}, sample_maxlen=700,
                 rule="file level: seeded record lists (incl. highly repetitive ones) x k {1,2,3,5,10,15,21,31} x threads x memory ceilings from 6 GB down to 1e-8 GB (one chunk to dozens of chunks and partitions) x acgt x container; the sorted lines of kmers.counts and the number of surviving temp files are compared with the model (partitioned counting + merge) and the spec (multiset of canonical k-mers); then controlled-scheduler replays of count() through the hooks (W<=3 workers, R<=5 records, limits 0..1000 so that runs take 1..R+1 chunk passes; random schedule prefix + round-robin tail): the logged CHECK/TAKE/INC/ADD/EXIT trace and the content of every chunk pass must equal the Coq schedule model's; thorough enumerates all 2^10 schedule prefixes for (W,R) in {(2,2),(2,3)}; `ctrfs` cases as for C17 (the files of the counter against the file-level model); non-trivial = at least one k-mer counted",
                 assumptions=["scc entry().and_modify().or_insert() and AtomicU64 operations are atomic steps", "total windows < 2^32 (u32 counts)"]),
     "C10": dict(gen=gen_C10, needs=["harness"], sample_limit={"quick": 32, "thorough": 96}, sample_maxlen=700, extra=extra_C10,
@@ -1191,8 +1204,8 @@ PROPS = {
                 rule="degenerate matrix: 0 records; records of length 0, 1, k-1, k, k+1, w-1, w; all-N; N first / last; mixtures with empty records first / last / only; x every subcommand (binary and library) x both oligo writers x w = 0 and w > 0 x threads {1, 8} x debug and release builds; observables: exit status (0, or 2 for clap), no panic/abort, one row per record, no NUL byte, no placeholder minimiser; every output also compared with model and spec; non-trivial = accepted run",
                 nontrivial=lambda c, o: o.startswith("exit=0|") or (not c.startswith("cli") and not o.startswith(("PANIC", "CRASH", "NOT-RUN"))),
                 assumptions=["runtime aborts and hangs not caused by the modelled logic (allocation failure, poisoned locks) are outside the model"]),
-    "C17": dict(gen=gen_C17, needs=["harness", "cli"], to_spec=to_spec_cli, sample_filter=lambda c: len(c) < 600 and " cov " not in c and " ctr " not in c, sample_limit={"quick": 16, "thorough": 60}, sample_maxlen=900,
-                rule="histories of two or three accepted runs of one subcommand (different inputs, k, thread counts, presets) sharing one output location, half of them with stale temp chunk files of a bigger run (20 partitions x 4 chunks), a stale kmers.counts and a longer stale kmers.vectors planted before the last run; the result files after the last run are compared with the model/spec of the last run alone (i.e. a fresh location); then `ctrfs` / `covfs`: the counter and `cov` (one worker, budgets 0..10^6 k-mers per chunk pass) in a directory that is empty or holds those stale files - the partition and chunk counts, every file of the directory after count() and every file after merge(true) are compared with the file-level model of the counter (Model/CtrFs.v: names, text, read-back, removal) and with the spec (stale files that are not this run's temp files untouched, own temp files gone, counts = the specified table, vectors = the specified rows); the same `min` command twice at 8 / 16 threads on groups of identical neighbouring reads; non-trivial = output produced",
+    "C17": dict(gen=gen_C17, needs=["harness", "cli"], to_spec=spec_fs(to_spec_cli), sample_filter=lambda c: len(c) < 600 and " cov " not in c and " ctr " not in c, sample_limit={"quick": 16, "thorough": 60}, sample_maxlen=900,
+                rule="histories of two or three accepted runs of one subcommand (different inputs, k, thread counts, presets) sharing one output location, half of them with stale temp chunk files of a bigger run (20 partitions x 4 chunks), a stale kmers.counts and a longer stale kmers.vectors planted before the last run; the result files after the last run are compared with the model/spec of the last run alone (i.e. a fresh location); then `ctrfs` / `covfs`: the counter and `cov` (one worker, budgets 0..10^6 k-mers per chunk pass) in a directory that is empty or holds those stale files - the partition and chunk counts, every file of the directory after count() and every file after merge(true) are compared with the file-level model of the counter (Model/CtrFs.v: names, text, read-back, removal) and - reduced to the result files, counts table and vectors file - with the spec; the same `min` command twice at 8 / 16 threads on groups of identical neighbouring reads; non-trivial = output produced",
                 nontrivial=lambda c, o: (o.startswith("exit=0|") and not o.endswith(("NOOUT", "|"))) or (c.startswith(("ctrfs ", "covfs ")) and "counts=" in o and not o.endswith("counts=") and not o.endswith("counts=;vectors")),
                 assumptions=["File::create / truncate + set_len / unlink behave as POSIX says (OS semantics are not modelled)"]),
     "C18": dict(gen=gen_C18, needs=["harness"], extra=extra_C18, to_spec=to_spec_C18,
